@@ -160,6 +160,7 @@ def plan(tier):
         for hi in range(nh):
             units.append(('single', fi, hi))
             units.append(('many', fi, hi))
+        units.append(('same-key', fi, 0))
         if tier == 'thorough':
             for hi in range(nh):
                 units.append(('pair', fi, hi))
@@ -223,6 +224,31 @@ def run_unit(unit, tier):
                     'example': repr(insert(data, spans[hi], 0, 'Length',
                                            '-3')[spans[hi][0]:
                                                  spans[hi][1] + 12])}, 1)
+    elif kind == 'same-key':
+        # the SAME unknown key on two (or three) different headers of one
+        # file with values of different kinds: what one header's value looked
+        # like must not influence how another's is reported
+        vals = ['a3f9c1e', '4129876', '-7', 'v1.2', '007', 'utf-16']
+        nh = len(spans)
+        hs = list(range(nh)) if nh <= 7 else \
+            [0, 1, 2, nh // 2, nh - 3, nh - 2, nh - 1]
+        for key in ('x-blob', 'Length'):
+            for a in hs:
+                for b in hs:
+                    if b <= a:
+                        continue
+                    for va in vals:
+                        for vb in vals:
+                            if va == vb:
+                                continue
+                            one([(a, len(spans[a][3]), key, va),
+                                 (b, 0, key, vb)], True)
+            if nh >= 3:
+                for va, vb, vc in (('a3f9c1e', '12', 'x'), ('12', 'x', '13'),
+                                   ('x', 'y', '14')):
+                    one([(hs[0], 0, key, va), (hs[1], 0, key, vb),
+                         (hs[-1], 0, key, vc)], True)
+        acc.sample({'file': name, 'same_key_on_two_headers': 'x-blob'}, 1)
     elif kind == 'many':
         # N unknown options at once on one header (total option count is a
         # dimension of its own): every N up to 40 and boundary counts
